@@ -240,10 +240,12 @@ jobs:
     env: ${{ fromJSON('{}') }}
     strategy:
       matrix:
-        os: [[a, b], {k: v}]
+        os: [[a, b, c], {k: [v, w, x]}]
         include:
-          - os: [c]
+          - os: [d, e, f]
             nested: {x: {y: z}}
+        exclude:
+          - os: [a, b, c]
     container:
       image: img
       env: ${{ fromJSON('{}') }}
@@ -743,7 +745,7 @@ func vMappingSchemaOf(np string, keys []string) (vMappingSchema, bool) {
 		return open()
 	case "jobs.*.container", "jobs.*.services.*":
 		return closed()
-	case "jobs.*.strategy.matrix.*[]", "jobs.*.strategy.matrix.include[].*", "jobs.*.strategy.matrix.include[].*.x", "jobs.*.strategy.matrix.exclude[].*":
+	case "jobs.*.strategy.matrix.*[]", "jobs.*.strategy.matrix.*[].k", "jobs.*.strategy.matrix.include[].*", "jobs.*.strategy.matrix.include[].*.x", "jobs.*.strategy.matrix.exclude[].*":
 		return vMappingSchema{Free: true}, true // nested matrix values are free-form
 	case "jobs.*.container.credentials", "jobs.*.services.*.credentials":
 		return closed("username", "password")
